@@ -1,5 +1,7 @@
 package eng
 
+import u "verifharness/universe"
+
 // weights helper
 func wts(pairs ...int) [NKinds]int {
 	var w [NKinds]int
@@ -171,6 +173,18 @@ var Profiles = map[string]func() Profile{
 		p.FilterSlots = 5
 		p.ObsSlots = 6
 		p.MaxAlive = 40
+		return p
+	},
+	"gc": func() Profile {
+		p := base()
+		p.Name = "gc"
+		p.W = wts(int(KNewEntity), 14, int(KNewBatch), 6, int(KAdd), 14, int(KRemove), 12, int(KExchange), 10, int(KSet), 6, int(KWrite), 8,
+			int(KSetRel), 5, int(KCopy), 5, int(KRemoveEntity), 10, int(KAddBatch), 4, int(KRemoveBatch), 4, int(KExchangeBatch), 3,
+			int(KSetRelBatch), 3, int(KRemoveEntities), 4, int(KReset), 1, int(KShrink), 4, int(KAddRes), 2, int(KRemoveRes), 2)
+		p.HotFixed = []int{u.IPtr, u.ISlc, u.IStr, u.IMp, u.IIfc, u.IMix, u.IR2, u.IP8, u.IZ0, u.IR1}
+		p.RelPct = 60
+		p.MaxAlive = 70
+		p.MaxBatchNew = 20
 		return p
 	},
 	"stats": func() Profile {
